@@ -301,11 +301,23 @@ func findKeyFinders(c *Ctx) []*keyFinder {
 			continue
 		}
 		kf.bufs = p.Origins(kf.rf.Call.Args[1], deepF)
-		memo := map[*ssa.Function]int{}
+		// the search call: its callee holds (or reaches) a trial-decryption loop — a mere wrapper around one Unpack is not a search
+		loopFns := map[*ssa.Function]bool{}
+		for _, sl := range findSearchLoops(c) {
+			loopFns[sl.fn] = true
+		}
 		for _, cl := range eng.Calls(f) {
 			if call, ok := cl.(*ssa.Call); ok {
-				if g := call.Call.StaticCallee(); g != nil && p.InRepo(g) && reaches(c, g, isCall("sdk/shadowsocks.Unpack"), memo) {
-					kf.search = call
+				if g := call.Call.StaticCallee(); g != nil && p.InRepo(g) {
+					hit := loopFns[g]
+					for _, h := range regionFns(c, g, nil, 2) {
+						if loopFns[h] {
+							hit = true
+						}
+					}
+					if hit {
+						kf.search = call
+					}
 				}
 			}
 		}
